@@ -6,6 +6,11 @@ import CandidModel.Proofs.Principal
 namespace Candid.Props.C16
 open Candid Candid.Principal
 
+/-- the limits the translator extracted from /repo: 29 payload bytes for every constructor and for a
+principal on the wire (binary_parser.rs), four checksum bytes -/
+theorem extracted_limits :
+    Gen.principalMaxLen = 29 ∧ Gen.wirePrincipalMax = 29 ∧ Gen.principalCrcLen = 4 := by decide
+
 /-- the model's view of the characters of `toText p` before grouping -/
 private theorem mem_lt (p : Bytes) : ∀ v ∈ b32Encode (be32 (crc32 p) ++ p), v < 32 := b32Encode_lt _
 
